@@ -282,6 +282,9 @@ Proof.
       * inversion H; subst. exists 0. cbn [firstn rev app length]. repeat split; auto; try lia; intros; discriminate.
 Qed.
 
+Lemma n_log_cancel_if : forall (b : bool) n, C4.n_log (if b then C4.cancel_net n else n) = C4.n_log n.
+Proof. intros [|] n; reflexivity. Qed.
+
 Lemma firstn_len_app : forall (A : Type) (a b : list A) k, firstn (length a + k) (a ++ b) = a ++ firstn k b.
 Proof. intros. apply firstn_app_2. Qed.
 
@@ -313,6 +316,7 @@ Proof.
           apply P4.mem_In in E. apply in_rev in E. apply miss_In in E.
           exfalso. eapply P1.NoDup_app_disj; eauto. }
         apply IH in H; [|assumption]. rewrite Hext in H. destruct H as [k2 [K1 [K2 [K3 K4]]]].
+        rewrite n_log_cancel_if in K3.
         exists (length (miss store s) + k2). rewrite app_length, firstn_len_app, rev_app_distr.
         repeat split.
         -- lia.
